@@ -99,14 +99,15 @@ def main(argv=None):
             for fp, rec in sorted(tot["fail_keep"].items(), key=lambda x: -tot["fail_n"][x[0]]):
                 f.write(json.dumps(dict(fingerprint=fp, count=tot["fail_n"][fp], **rec), default=str) + "\n")
     # replay witnesses
-    rdir = os.path.join(VERIF, "evidence", "replay")
+    erel = os.path.relpath(os.environ.get("VERIF_EVIDENCE_DIR") or os.path.join(VERIF, "evidence"), VERIF)
+    rdir = os.path.join(VERIF, erel, "replay")
     os.makedirs(rdir, exist_ok=True)
     for f in os.listdir(rdir):
         if f.startswith(prop + "-"):
             os.remove(os.path.join(rdir, f))
     lines = []
     for i, (fp, rec) in enumerate(viol[:20]):
-        path = os.path.join("evidence", "replay", f"{prop}-{i:02d}.json")
+        path = os.path.join(erel, "replay", f"{prop}-{i:02d}.json")
         with open(os.path.join(VERIF, path), "w") as f:
             json.dump(dict(fingerprint=fp, count=tot["fail_n"][fp], **rec), f, indent=1, default=str)
         lines.append(f"VIOLATION property={prop} replay={path}")
